@@ -131,4 +131,22 @@ theorem C18_source_skeletons :
     Gen.Skel.Reader_Read = Expected.Skel.Reader_Read :=
   ⟨rfl, rfl⟩
 
+/-- further regenerated control skeletons (see Model/ExpectedSkel.lean): fn_ReadStreamFrame, fn_WriteStreamFrame, LTXStreamFrame_ReadFrom, LTXStreamFrame_WriteTo, DropDBStreamFrame_ReadFrom, DropDBStreamFrame_WriteTo, HandoffStreamFrame_ReadFrom, HandoffStreamFrame_WriteTo, HWMStreamFrame_ReadFrom, HWMStreamFrame_WriteTo, HeartbeatStreamFrame_ReadFrom, HeartbeatStreamFrame_WriteTo, fn_ReadPosMapFrom, fn_WritePosMapTo -/
+theorem C18_source_skeletons_2 :
+    Gen.Skel.fn_ReadStreamFrame = Expected.Skel.fn_ReadStreamFrame ∧
+    Gen.Skel.fn_WriteStreamFrame = Expected.Skel.fn_WriteStreamFrame ∧
+    Gen.Skel.LTXStreamFrame_ReadFrom = Expected.Skel.LTXStreamFrame_ReadFrom ∧
+    Gen.Skel.LTXStreamFrame_WriteTo = Expected.Skel.LTXStreamFrame_WriteTo ∧
+    Gen.Skel.DropDBStreamFrame_ReadFrom = Expected.Skel.DropDBStreamFrame_ReadFrom ∧
+    Gen.Skel.DropDBStreamFrame_WriteTo = Expected.Skel.DropDBStreamFrame_WriteTo ∧
+    Gen.Skel.HandoffStreamFrame_ReadFrom = Expected.Skel.HandoffStreamFrame_ReadFrom ∧
+    Gen.Skel.HandoffStreamFrame_WriteTo = Expected.Skel.HandoffStreamFrame_WriteTo ∧
+    Gen.Skel.HWMStreamFrame_ReadFrom = Expected.Skel.HWMStreamFrame_ReadFrom ∧
+    Gen.Skel.HWMStreamFrame_WriteTo = Expected.Skel.HWMStreamFrame_WriteTo ∧
+    Gen.Skel.HeartbeatStreamFrame_ReadFrom = Expected.Skel.HeartbeatStreamFrame_ReadFrom ∧
+    Gen.Skel.HeartbeatStreamFrame_WriteTo = Expected.Skel.HeartbeatStreamFrame_WriteTo ∧
+    Gen.Skel.fn_ReadPosMapFrom = Expected.Skel.fn_ReadPosMapFrom ∧
+    Gen.Skel.fn_WritePosMapTo = Expected.Skel.fn_WritePosMapTo :=
+  ⟨rfl, rfl, rfl, rfl, rfl, rfl, rfl, rfl, rfl, rfl, rfl, rfl, rfl, rfl⟩
+
 end LiteFSVerif.C18
